@@ -89,3 +89,32 @@ Definition justified (pre : N) (n : nat) : N := pre + N.of_nat n.
 Definition Known_C19_alloc (pre : N) (d : list (list (option N * bool))) : bool :=
   existsb (fun tb => match fst tb with Some h => justified pre (List.length (concat d)) <? h | None => false end)
           (concat d).
+
+(* what to_csv writes for an annotation with one data item and a simple selector
+   (AnnotationCsv::set_selectortype, set_targetresource, ... in src/csv.rs) *)
+Definition row_of_simple (id data set : str) (b : sbuild) : csvrow :=
+  let blank := {| c_id := id; c_data := data; c_set := set; c_kind := []; c_res := []; c_ann := [];
+                  c_dset := []; c_begin := []; c_end := []; c_key := []; c_tdata := [] |} in
+  let with_kind k r := {| c_id := c_id r; c_data := c_data r; c_set := c_set r; c_kind := str_of_kind k;
+                          c_res := c_res r; c_ann := c_ann r; c_dset := c_dset r; c_begin := c_begin r;
+                          c_end := c_end r; c_key := c_key r; c_tdata := c_tdata r |} in
+  match b with
+  | BText r cb ce => {| c_id := id; c_data := data; c_set := set; c_kind := str_of_kind KText; c_res := r;
+                        c_ann := []; c_dset := []; c_begin := str_of_cursor cb; c_end := str_of_cursor ce;
+                        c_key := []; c_tdata := [] |}
+  | BAnn a None => {| c_id := id; c_data := data; c_set := set; c_kind := str_of_kind KAnnotation; c_res := [];
+                      c_ann := a; c_dset := []; c_begin := []; c_end := []; c_key := []; c_tdata := [] |}
+  | BAnn a (Some (cb, ce)) =>
+      {| c_id := id; c_data := data; c_set := set; c_kind := str_of_kind KAnnotation; c_res := [];
+         c_ann := a; c_dset := []; c_begin := str_of_cursor cb; c_end := str_of_cursor ce;
+         c_key := []; c_tdata := [] |}
+  | BRes r => with_kind KResource {| c_id := id; c_data := data; c_set := set; c_kind := []; c_res := r; c_ann := [];
+                  c_dset := []; c_begin := []; c_end := []; c_key := []; c_tdata := [] |}
+  | BSet s => with_kind KDataSet {| c_id := id; c_data := data; c_set := set; c_kind := []; c_res := []; c_ann := [];
+                  c_dset := s; c_begin := []; c_end := []; c_key := []; c_tdata := [] |}
+  | BKey s k => with_kind KDataKey {| c_id := id; c_data := data; c_set := set; c_kind := []; c_res := []; c_ann := [];
+                  c_dset := s; c_begin := []; c_end := []; c_key := k; c_tdata := [] |}
+  | BDat s d => with_kind KData {| c_id := id; c_data := data; c_set := set; c_kind := []; c_res := []; c_ann := [];
+                  c_dset := s; c_begin := []; c_end := []; c_key := []; c_tdata := d |}
+  | BComplex _ _ => blank
+  end.
